@@ -293,6 +293,33 @@ CHECKS = {
 }
 NOT_YET = "machinery for this property is not built yet (work in progress; see DESIGN.md section 5 for the planned TLA+ module)"
 
+# what the checks gained after the seeded-change rounds (appended to the level text)
+ADDED = {
+ "C04": " The IOCB half (IOQ.tla: confirmed and unconfirmed requests through IOCBs, direct unconfirmed requests; AtMostOneCompletion, "
+        "OneActivePerDestination, NoStall, NoResidue, OutcomeOnlyFromReply, EventuallyAllDone) is model-checked and bound by recorded "
+        "ApplicationIOController runs with every single fault; a last scenario lets the library's own scheduler run 2-8 concurrent requests "
+        "with answering and silent peers and compares every outcome instant with TSM.tla's timer semantics (BoundedTime).",
+ "C05": " Long requests whose short reply is lost or late (the whole request is repeated) and a wall-clock budget that turns a transfer "
+        "that never ends into a Terminates verdict were added after the second seeding round.",
+ "C11": " DirectionRespected: an abort / segment ack without the server bit never touches one of the node's own requests. One level up, "
+        "IOQ.tla's OutcomeOnlyFromReply is validated on ApplicationIOController runs with several requests outstanding to one peer and "
+        "unconfirmed traffic in between (every finished IOCB holds the answer to its own request).",
+ "C12": " Re-announcements: the server's current I-Am reaches the client while an earlier transaction with that server is outstanding (or "
+        "just after it); the transaction under test has to respect the current announcement.",
+ "C19": " A third rig keeps packets parked behind an outstanding Who-Is-Router across the history: an announcement must release them to "
+        "the announcing router (ParkedReleased) and later packets must go out as soon as a route is known, however it was learned.",
+ "C10": " Segmented answers are followed by every kind of segment ack (sequence number in / beyond the window / beyond the answer, window "
+        "0..255, negative, wrong direction bit) and aborts: the transfer counts as one logical reply (SegTransfer) and must leave nothing behind.",
+ "C14": " Configuration h (trace validation only): 12 one-shot timers of very different lengths, most of them stopped again from the middle "
+        "of the heap, validated against the same monitors.",
+ "C15": " The store object also owns a computed property (ReadProperty overridden, nothing in the value table), so that selector expansion "
+        "is compared with per-property reads for that pattern too.",
+ "C17": " Writes of something that is not a value of the datatype (an undefined enumeration number; another application type over the wire) "
+        "at valid priorities are BadWrite steps: refused and without effect (BadWriteChangesNothing).",
+ "C03": " Every non-PDU value is also carried in an Any: cast_in holds the value's encoding, cast_out gives the value back, and reading it "
+        "twice leaves the Any unchanged.",
+}
+
 m = {
  "version": 1,
  "setup_cmd": "bin/setup",
@@ -316,7 +343,7 @@ for pid in props:
             "evidence_file": "/verif/evidence/%s.json" % pid,
             "replay_cmd_template": "bin/check %s --replay {path}" % pid,
             "engine": "tlc",
-            "level_claimed": {"category": c["category"], "text": c["text"], "design_ref": c["design_ref"]},
+            "level_claimed": {"category": c["category"], "text": c["text"] + ADDED.get(pid, ""), "design_ref": c["design_ref"]},
             "level_note": c["note"],
             "technique": c["technique"],
         })
